@@ -269,7 +269,7 @@ pub fn run(args: &Args) -> i32 {
                 *templates.entry(t.clone()).or_insert(0) += 1;
                 if let Some(n) = all_needles.iter().find(|n| r.message.contains(n.as_str())) {
                     let e = leaks.entry(t).or_insert_with(|| (0, json!({"kind":"log-leak","level":r.level.to_string(),"target":r.target,
-                        "message":r.message.chars().take(500).collect::<String>(),"matched":if n.len() > 12 { format!("{}...", &n[..12]) } else { n.clone() }})));
+                        "message":r.message.chars().take(500).collect::<String>(),"matched":if n.len() > 12 { format!("{}...", n.chars().take(12).collect::<String>()) } else { n.clone() }})));
                     e.0 += 1;
                 }
             }
